@@ -238,8 +238,12 @@ func genType(t *rapid.T) Desc {
 // ---- value generator ------------------------------------------------------------------------------
 
 type valGen struct {
-	cap uint64 // soft limit on generated vector lengths
+	cap   uint64 // soft limit on generated vector lengths
+	depth int    // references to static (possibly recursive) types followed so far on this path
 }
+
+// maxRefDepth bounds the data-driven nesting of recursive static types.
+const maxRefDepth = 5
 
 func genUintBits(t *rapid.T, max uint64) uint64 {
 	switch rapid.IntRange(0, 7).Draw(t, "uform") {
@@ -305,6 +309,11 @@ func (g *valGen) length(t *rapid.T, mn, mx uint64) uint64 {
 }
 
 func (g *valGen) val(t *rapid.T, d *Desc) Val {
+	if d.K == KRef {
+		g.depth++
+		defer func() { g.depth-- }()
+		d = d.res()
+	}
 	switch d.K {
 	case KU8, KU16, KU24, KU32, KU64:
 		return Val{U: genUintBits(t, widthMax(intWidth(d.K)))}
@@ -321,9 +330,16 @@ func (g *valGen) val(t *rapid.T, d *Desc) Val {
 		return Val{B: genBytes(t, int(n)), Nil: n == 0 && rapid.Bool().Draw(t, "nilslice")}
 	case KVec:
 		target := g.length(t, d.Min, d.Max)
+		if g.depth >= maxRefDepth && d.Elem.hasRef() {
+			target = d.Min // stop the recursion through a vector of itself
+		}
 		var v Val
 		var total uint64
-		for i := 0; total < target && i < 64; i++ {
+		maxElems := 64
+		if d.Elem.hasRef() && d.Elem.res().hasRef() {
+			maxElems = 3 // a vector of a recursive type: keep the fan-out small, the depth does the work
+		}
+		for i := 0; total < target && i < maxElems; i++ {
 			e := g.val(t, d.Elem)
 			b, _, _, err := refEnc(d.Elem, &e, quirks{})
 			if err != nil {
@@ -351,6 +367,11 @@ func (g *valGen) val(t *rapid.T, d *Desc) Val {
 			}
 			if f.D.K == KEnum {
 				if arms := d.armsOf(i); len(arms) > 0 {
+					if g.depth >= maxRefDepth {
+						if ta := d.terminalArms(i); len(ta) > 0 {
+							arms = ta // stop the recursion through a variant pointer
+						}
+					}
 					v.L[i] = Val{U: pick(t, "selval", arms...)}
 					continue
 				}
@@ -364,6 +385,7 @@ func (g *valGen) val(t *rapid.T, d *Desc) Val {
 
 // zeroVal is the smallest valid value of d (used to populate arms / extend vectors when invalidating).
 func zeroVal(d *Desc) Val {
+	d = d.res()
 	switch d.K {
 	case KArray:
 		return Val{B: make(Hex, d.N)}
@@ -374,6 +396,9 @@ func zeroVal(d *Desc) Val {
 		return Val{B: make(Hex, d.Min)}
 	case KVec:
 		var v Val
+		if d.Min == 0 {
+			return v
+		}
 		e := zeroVal(d.Elem)
 		b, _, _, err := refEnc(d.Elem, &e, quirks{})
 		if err != nil || len(b) == 0 {
@@ -394,6 +419,9 @@ func zeroVal(d *Desc) Val {
 				}
 			} else if f.D.K == KEnum {
 				if arms := d.armsOf(i); len(arms) > 0 {
+					if ta := d.terminalArms(i); len(ta) > 0 {
+						arms = ta
+					}
 					v.L[i] = Val{U: arms[0]}
 					continue
 				}
@@ -428,6 +456,7 @@ type invSite struct {
 
 // invalidSites enumerates the places where v (a valid value of d) can be made invalid in exactly one way.
 func invalidSites(d *Desc, v *Val, limit uint64, out *[]invSite) {
+	d = d.res()
 	switch d.K {
 	case KU24:
 		*out = append(*out, invSite{"uint24-overflow", func() { v.U = 0x1000000 }},
@@ -517,6 +546,17 @@ func invalidSites(d *Desc, v *Val, limit uint64, out *[]invSite) {
 	}
 }
 
+// terminalArms lists the arm values of selector field i whose arm types do not lead back into a static type.
+func (d *Desc) terminalArms(i int) []uint64 {
+	var a []uint64
+	for j := range d.Fields {
+		if d.Fields[j].Arm && d.Fields[j].Sel == i && !d.Fields[j].D.hasRef() {
+			a = append(a, d.Fields[j].Val)
+		}
+	}
+	return a
+}
+
 // bodyLen is the encoded size of the elements of vector value v (without the length prefix).
 func bodyLen(d *Desc, v *Val) uint64 {
 	var total uint64
@@ -546,8 +586,10 @@ type Trial struct {
 
 // Case is one generated type with a handful of trials.
 type Case struct {
+	Static string  `json:"static,omitempty"` // name of a statically declared type (static.go); Type is then informative only
 	Type   Desc    `json:"type"`
 	Trials []Trial `json:"trials"`
+	Then   []Case  `json:"then,omitempty"` // further types coded in the same process right after this one
 }
 
 func valueCap(t *rapid.T) uint64 {
@@ -561,6 +603,53 @@ func valueCap(t *rapid.T) uint64 {
 		return 400
 	}
 	return 24
+}
+
+// genStaticTrials draws value trials (some made invalid) and byte-string trials for a static type.
+func genStaticTrials(t *rapid.T, c *Case, d *Desc, nvals, nbytes int) {
+	for i := 0; i < nvals; i++ {
+		g := &valGen{cap: pick[uint64](t, "scap", 8, 24, 24, 60)}
+		v := g.val(t, d)
+		tr := Trial{Kind: "value", Note: "valid", V: &v, Dirty: rapid.IntRange(0, 3).Draw(t, "dirty") == 0}
+		if rapid.IntRange(0, 9).Draw(t, "invalid") < 3 {
+			var sites []invSite
+			invalidSites(d, &v, 400, &sites)
+			if len(sites) > 0 {
+				s := sites[rapid.IntRange(0, len(sites)-1).Draw(t, "site")]
+				s.apply()
+				tr.Note = "invalid:" + s.label
+			}
+		}
+		c.Trials = append(c.Trials, tr)
+	}
+	for i := 0; i < nbytes; i++ {
+		in, note := genInput(t, d)
+		c.Trials = append(c.Trials, Trial{Kind: "bytes", Note: note, Input: in, Dirty: rapid.IntRange(0, 3).Draw(t, "dirty") == 0})
+	}
+}
+
+// genStatic draws a case over statically declared types: either one named / recursive type, or a sequence of
+// two to four of the distinct types that are all called c09.record, coded one after the other in drawn order.
+func genStatic(t *rapid.T) Case {
+	one := func(name string, nvals, nbytes int) Case {
+		s := staticByName(name)
+		c := Case{Static: name, Type: s.Desc}
+		genStaticTrials(t, &c, &s.Desc, nvals, nbytes)
+		return c
+	}
+	if rapid.IntRange(0, 2).Draw(t, "staticform") == 0 {
+		names := staticGroup("record")
+		n := rapid.IntRange(2, 4).Draw(t, "nrecords")
+		var seq []Case
+		for i := 0; i < n; i++ {
+			seq = append(seq, one(pick(t, "record", names...), 2, 1))
+		}
+		c := seq[0]
+		c.Then = seq[1:]
+		return c
+	}
+	names := append(staticGroup("recursive"), staticGroup("named")...)
+	return one(pick(t, "static", names...), rapid.IntRange(2, 4).Draw(t, "nvals"), rapid.IntRange(1, 3).Draw(t, "nbytes"))
 }
 
 func genValues(t *rapid.T) Case {
